@@ -287,7 +287,7 @@ def exRec (b : Nat) : Bytes := List.replicate 64 b
 def exFile : V3File :=
   { hdr := [1, 2, 3, 4, 5, 6, 7, 8, 9, 10, 11, 12], cpu := [0x62, 0x70], four := [9, 9, 9, 9],
     filler := [115, 116, 97, 0, 0x1d, 0], gap1 := [0, 0x1d, 0, 0],
-    threads := [⟨7, 100, [0x61]⟩, ⟨8, 100, [0xc3, 0xa9]⟩], tmTrail := [1, 2, 3],
+    threads := [⟨7, 100, [0x61], [0x62, 0, 0xfe]⟩, ⟨8, 100, [0xc3, 0xa9], []⟩], tmTrail := [1, 2, 3],
     first := ⟨[0, 0x1e, 0], 5, List.replicate 8 0, [exRec 1]⟩,
     more := [⟨[], 0, List.replicate 8 7, [exRec 2, exRec 3]⟩],
     blocks := [⟨TRACEV3_TRACE_CODES, [0x41, 0x0a], true⟩, ⟨TRACEV3_TRACE_CODES, [0x42], false⟩] }
